@@ -22,12 +22,13 @@ GROUPS = {
     'leaf': ('pocket-types', [('leaf_json_escape.rs', 'pocket-types/src/json/json_escape.rs'), ('leaf_kind.rs', 'pocket-types/src/kind.rs'),
                               ('leaf_event.rs', 'pocket-types/src/event.rs')],
              ['is_safe_char_contract', 'kind_classification_contract', 'event_id_pubkey_sig_contract'], []),
+    'addr': ('pocket-types', [('addr.rs', 'pocket-types/src/addr.rs')], ['addr_d_is_everything_after_second_colon'], []),
     # slow direct checks (minutes): thorough tier only
     'hll_slow': ('pocket-types', [('hll8.rs', 'pocket-types/src/hll8.rs')],
             ['add_distributes_over_merge', 'add_element_idempotent_and_order_independent'], []),
 }
 # harnesses whose loops depend on input length: reported as bounded(n), never counted as proved
-BOUNDED = {}
+BOUNDED = {'addr_d_is_everything_after_second_colon': 'd <= 6 bytes, fixed kind digits and author'}
 
 
 def weave_copy(repo, group):
